@@ -80,6 +80,7 @@ var (
 	goLits      []goLit
 	exportedFns []string
 	connCalls   []connCall
+	atomicOps   []connCall // (unit, field, sync/atomic function, line)
 	postUnits   []string
 	unitOrder   []string
 	unitSeen    = map[string]bool{}
@@ -257,6 +258,7 @@ func (w *walker) classify(sel *ast.SelectorExpr, field string, unit string) {
 			if fs, ok := call.Fun.(*ast.SelectorExpr); ok {
 				if id, ok := fs.X.(*ast.Ident); ok && id.Name == w.atomicPkg && w.atomicPkg != "" {
 					w.pending = append(w.pending, pendingAccess{unit, field, atomicWrites(fs.Sel.Name), "atomic", sel.Pos()})
+					atomicOps = append(atomicOps, connCall{unit, field, fs.Sel.Name, fset.Position(call.Pos()).Line})
 					return
 				}
 			}
@@ -617,6 +619,14 @@ func main() {
 	b.WriteString("/-- method calls on fields that hold an interface / foreign value (the connection): (unit, field, method, line) -/\n")
 	b.WriteString("def fieldCalls : List (String × String × String × Nat) := [")
 	for i, c := range connCalls {
+		if i > 0 {
+			b.WriteString(", ")
+		}
+		fmt.Fprintf(&b, "(%s, %s, %s, %d)", lstr(c.unit), lstr(c.field), lstr(c.method), c.line)
+	}
+	b.WriteString("]\n\n/-- sync/atomic functions applied to the address of a field: (unit, field, function, line) -/\n")
+	b.WriteString("def atomicOps : List (String × String × String × Nat) := [")
+	for i, c := range atomicOps {
 		if i > 0 {
 			b.WriteString(", ")
 		}
